@@ -326,6 +326,183 @@ func genManaged() {
 	}
 	fmt.Fprintf(&sb, "/-- the handler-level recover block of (*mainHandler).handle (api/router.go), statements in source order. -/\ndef apiRecoverSeq : List String := %s\n\n", leanStrList(apiSeq))
 
+	// ---- modules/modules.go: how stopAllTasks gets the stop routine's result into the error it reports
+	//
+	//	var err error
+	//	select {
+	//	case <-m.stopComplete:            err = <-stopFnError
+	//	case <-time.After(moduleStopTimeout): …log…; select { case err = <-stopFnError: default: }
+	//	}
+	//	if err != nil { m.Error(…) } … reports <- &report{module: m, err: err}
+	//
+	// stopFetch: per way the wait ends ("completed" / "timeout") how the result is received ("recv" = a blocking
+	// receive statement, "select-default" = a receive that is given up when nothing was sent yet) and the assignment
+	// token: "=" assigns to the function's `err`, ":=" would declare a new variable in the case clause and leave the
+	// reported `err` nil. stopReportErr: the expression stored in the `err` field of the report.
+	fsetM, fM := parseFile("modules/modules.go")
+	sat := findFunc(fM, "stopAllTasks", "Module")
+	if sat == nil {
+		die("managed: (*Module).stopAllTasks not found")
+	}
+	isHookM := func(st ast.Stmt) bool {
+		es, ok := st.(*ast.ExprStmt)
+		if !ok {
+			return false
+		}
+		ce, ok := es.X.(*ast.CallExpr)
+		if !ok {
+			return false
+		}
+		fn := exprString(fsetM, ce.Fun)
+		return strings.HasPrefix(fn, "verif") || strings.HasPrefix(fn, "log.")
+	}
+	// statements that only log (also: an `if` around log calls)
+	var onlyLogs func(list []ast.Stmt) bool
+	onlyLogs = func(list []ast.Stmt) bool {
+		for _, st := range list {
+			if isHookM(st) {
+				continue
+			}
+			is, ok := st.(*ast.IfStmt)
+			if !ok || is.Init != nil || !onlyLogs(is.Body.List) {
+				return false
+			}
+			if is.Else != nil {
+				el, ok := is.Else.(*ast.BlockStmt)
+				if !ok || !onlyLogs(el.List) {
+					return false
+				}
+			}
+		}
+		return true
+	}
+	// `err = <-stopFnError` / `err := <-stopFnError`
+	fetchTok := func(st ast.Stmt) (string, bool) {
+		as, ok := st.(*ast.AssignStmt)
+		if !ok || len(as.Lhs) != 1 || len(as.Rhs) != 1 || exprString(fsetM, as.Lhs[0]) != "err" ||
+			exprString(fsetM, as.Rhs[0]) != "<-stopFnError" {
+			return "", false
+		}
+		return as.Tok.String(), true
+	}
+	var errDecls, selects int
+	var stopFetch [][3]string
+	for _, st := range sat.Body.List {
+		switch x := st.(type) {
+		case *ast.DeclStmt:
+			if gd, ok := x.Decl.(*ast.GenDecl); ok && gd.Tok == token.VAR && len(gd.Specs) == 1 {
+				vs := gd.Specs[0].(*ast.ValueSpec)
+				if len(vs.Names) == 1 && vs.Names[0].Name == "err" && vs.Type != nil && exprString(fsetM, vs.Type) == "error" && len(vs.Values) == 0 {
+					errDecls++
+				}
+			}
+		case *ast.SelectStmt:
+			selects++
+			for _, cl := range x.Body.List {
+				cm := cl.(*ast.CommClause)
+				if cm.Comm == nil {
+					die("managed: stopAllTasks: the wait has a default case")
+				}
+				var body []ast.Stmt
+				for _, b := range cm.Body {
+					if !isHookM(b) {
+						body = append(body, b)
+					}
+				}
+				switch c := managedStmtString(fsetM, cm.Comm); c {
+				case "<-m.stopComplete":
+					if len(body) != 1 {
+						die("managed: stopAllTasks: completion branch: expected the receive of the stop routine's result only")
+					}
+					tok, ok := fetchTok(body[0])
+					if !ok {
+						die("managed: stopAllTasks: completion branch: unrecognised statement %s", managedStmtString(fsetM, body[0]))
+					}
+					stopFetch = append(stopFetch, [3]string{"completed", "recv", tok})
+				case "<-time.After(moduleStopTimeout)":
+					if len(body) != 1 {
+						die("managed: stopAllTasks: timeout branch: expected logging and one select")
+					}
+					sel, ok := body[0].(*ast.SelectStmt)
+					if !ok || len(sel.Body.List) != 2 {
+						die("managed: stopAllTasks: timeout branch: unrecognised statement %s", managedStmtString(fsetM, body[0]))
+					}
+					tok, seenDefault := "", false
+					for _, icl := range sel.Body.List {
+						icm := icl.(*ast.CommClause)
+						if !onlyLogs(icm.Body) {
+							die("managed: stopAllTasks: timeout branch: a case of the inner select does more than log")
+						}
+						if icm.Comm == nil {
+							seenDefault = true
+							continue
+						}
+						t, ok := fetchTok(icm.Comm)
+						if !ok {
+							die("managed: stopAllTasks: timeout branch: unrecognised case %s", managedStmtString(fsetM, icm.Comm))
+						}
+						tok = t
+					}
+					if tok == "" || !seenDefault {
+						die("managed: stopAllTasks: timeout branch: the inner select is not `case err … <-stopFnError: default:`")
+					}
+					stopFetch = append(stopFetch, [3]string{"timeout", "select-default", tok})
+				default:
+					die("managed: stopAllTasks: unrecognised case of the wait: %s", c)
+				}
+			}
+		}
+	}
+	if errDecls != 1 || selects != 1 || len(stopFetch) != 2 {
+		die("managed: stopAllTasks: expected one `var err error` and one wait with a completion and a timeout branch (%d, %d, %d)", errDecls, selects, len(stopFetch))
+	}
+	// nothing else writes `err`; the report carries it
+	nAssign := 0
+	reportErr := ""
+	ast.Inspect(sat.Body, func(n ast.Node) bool {
+		switch x := n.(type) {
+		case *ast.AssignStmt:
+			for _, l := range x.Lhs {
+				if exprString(fsetM, l) == "err" {
+					nAssign++
+				}
+			}
+		case *ast.SendStmt:
+			if exprString(fsetM, x.Chan) == "reports" {
+				ue, ok := x.Value.(*ast.UnaryExpr)
+				if !ok || ue.Op != token.AND {
+					die("managed: stopAllTasks: unrecognised report value")
+				}
+				cl, ok := ue.X.(*ast.CompositeLit)
+				if !ok || exprString(fsetM, cl.Type) != "report" {
+					die("managed: stopAllTasks: unrecognised report value")
+				}
+				for _, el := range cl.Elts {
+					kv, ok := el.(*ast.KeyValueExpr)
+					if ok && exprString(fsetM, kv.Key) == "err" {
+						reportErr = exprString(fsetM, kv.Value)
+					}
+				}
+			}
+		}
+		return true
+	})
+	if nAssign != 2 {
+		die("managed: stopAllTasks: `err` is assigned %d times (expected: the two receives of the stop routine's result)", nAssign)
+	}
+	if reportErr == "" {
+		die("managed: stopAllTasks: the report has no err field")
+	}
+	sb.WriteString("/-- stopAllTasks (modules/modules.go): per way its wait ends, how the stop routine's result is received and with\n    which assignment token (\"=\": into the function's own `err`; \":=\": into a new variable of the case clause). -/\ndef stopFetch : List (String × String × String) :=\n  [")
+	for i, c := range stopFetch {
+		if i > 0 {
+			sb.WriteString(", ")
+		}
+		fmt.Fprintf(&sb, "(%q, %q, %q)", c[0], c[1], c[2])
+	}
+	sb.WriteString("]\n\n")
+	fmt.Fprintf(&sb, "/-- the expression stopAllTasks puts into the `err` field of its report to the pass. -/\ndef stopReportErr : String := %q\n\n", reportErr)
+
 	sb.WriteString("end PB.Gen.Managed\n")
 	write("Managed.lean", sb.String())
 }
